@@ -10,7 +10,7 @@ from .datadir import DataDir, create_datadir
 from .metadata import MetaData
 from .readcoderaggedarray import readcode, readcodefunc, \
     shapeindexexplanationtextraggedarray
-from .utils import wrap
+from .utils import wrap, product
 
 __all__ = ['RaggedArray', 'asraggedarray', 'create_raggedarray',
            'delete_raggedarray', 'truncate_raggedarray']
@@ -247,18 +247,7 @@ class RaggedArray:
             None
 
         """
-        if self._accessmode != 'r+':
-            raise OSError(f"Accesmode should be 'r+' "
-                          f"(now is '{self._accessmode}')")
-        with self.open_arrays() as ((iv, vv), (fdv, fdi)):
-            vlen = self._values.shape[0]
-            vlenincr, ilenincr = self._append(array, fdv, fdi, vlen)
-        # update after closing arrays, so that info is based on new data
-        self._values._update_len(lenincrease=vlenincr)
-        self._indices._update_len(lenincrease=ilenincr)
-        self._update_arraydescr(len=len(self._indices),
-                                size=self._values.size)
-        self._update_readmetxt()
+        self.iterappend([array])
 
     def copy(self, path, dtype=None, accessmode='r', overwrite=False):
         """Copy darr to a different path, potentially changing its dtype.
@@ -357,19 +346,39 @@ class RaggedArray:
         if self._accessmode != 'r+':
             raise OSError(f"Accesmode should be 'r+' "
                           f"(now is '{self._accessmode}')")
-        with self.open_arrays() as ((iv, vv), (fdv, fdi)):
-            vlenincr = 0
-            ilenincr = 0
-            vlen = self._values.shape[0]
-            for a in arrayiterable:
-                vli, ili = self._append(a, fdv, fdi, vlen+vlenincr)
-                vlenincr += vli
-                ilenincr += ili
-        self._values._update_len(lenincrease=vlenincr)
-        self._indices._update_len(lenincrease=ilenincr)
-        self._update_arraydescr(len=len(self._indices),
-                                size=self._values.size)
-        self._update_readmetxt()
+        vlenincr = 0
+        ilenincr = 0
+        try:
+            with self.open_arrays() as ((iv, vv), (fdv, fdi)):
+                vlen = self._values.shape[0]
+                try:
+                    for a in arrayiterable:
+                        vli, ili = self._append(a, fdv, fdi, vlen+vlenincr)
+                        vlenincr += vli
+                        ilenincr += ili
+                except Exception:
+                    # something went wrong, we only keep the subarrays that
+                    # were appended completely
+                    self._truncatefiles(fdv, fdi, vlenincr, ilenincr)
+                    raise
+        finally:
+            self._values._update_len(lenincrease=vlenincr)
+            self._indices._update_len(lenincrease=ilenincr)
+            self._update_arraydescr(len=len(self._indices),
+                                    size=self._values.size)
+            self._update_readmetxt()
+
+    def _truncatefiles(self, fdv, fdi, vlenincr, ilenincr):
+        """Private method to remove the data of a partially appended subarray
+        from the values and indices files after a failed append.
+
+        """
+        for ar, fd, lenincr in ((self._values, fdv, vlenincr),
+                                (self._indices, fdi, ilenincr)):
+            nbytes = (ar.shape[0] + lenincr) * product(ar.shape[1:]) * \
+                     ar.itemsize
+            fd.flush()
+            fd.truncate(nbytes)
 
     def readcode(self, language, abspath=False, basepath=None):
         """Generate code to read the array in a different language.
